@@ -80,21 +80,24 @@ fn ser(prost: bool, seed: &[u8]) -> Vec<u8> {
 fn encode(c: &EncCase, settings: (usize, usize), pending: bool, ch: &Chooser) -> Collected {
     let bs = BufferSettings::new(settings.0, settings.1);
     let enc = c.enc.map(tonic_enc);
+    // uncompressed streams are encoded under a send limit that every single message respects (the
+    // longest one + 8) but that two messages batched together exceed: the limit is per message
+    let limit: Option<usize> = if c.enc.is_none() { c.msgs.iter().map(|m| ser(c.prost, m).len()).max().map(|l| l + 8) } else { None };
     if c.prost {
         let items: Vec<Item<PMsg>> = c.msgs.iter().map(|m| Item::Msg(PMsg::from_seed(m))).collect();
         let src = ScriptStream::new(items, pending, ch);
         let e = ProstCodec::<PMsg, PMsg>::raw_encoder(bs);
         match c.role {
-            Role::Client => collect_body(EncodeBody::new_client(e, src, enc, None), 10_000),
-            Role::Server => collect_body(EncodeBody::new_server(e, src, enc, Default::default(), None), 10_000),
+            Role::Client => collect_body(EncodeBody::new_client(e, src, enc, limit), 10_000),
+            Role::Server => collect_body(EncodeBody::new_server(e, src, enc, Default::default(), limit), 10_000),
         }
     } else {
         let items: Vec<Item<Vec<u8>>> = c.msgs.iter().map(|m| Item::Msg(m.clone())).collect();
         let src = ScriptStream::new(items, pending, ch);
         let e = RawCodec::new(bs).encoder();
         match c.role {
-            Role::Client => collect_body(EncodeBody::new_client(e, src, enc, None), 10_000),
-            Role::Server => collect_body(EncodeBody::new_server(e, src, enc, Default::default(), None), 10_000),
+            Role::Client => collect_body(EncodeBody::new_client(e, src, enc, limit), 10_000),
+            Role::Server => collect_body(EncodeBody::new_server(e, src, enc, Default::default(), limit), 10_000),
         }
     }
 }
@@ -338,7 +341,7 @@ pub fn property(tier: Tier) -> Property {
     let enc_sec = Section::new(
         "encode",
         Config { max_bound: 5, ..Default::default() },
-        "cases: message sequences (0..=3 messages over sizes {0,1,3,9,40} + two sequences crossing 8/32 KiB) x codec {raw, prost} x buffer settings {(4,8),(8,16),default} x encoding {identity,gzip,deflate,zstd} x role; environment: the source answers Pending before any item or the end (every pattern: bound 5 >= number of points); oracle: bytes identical to the always-ready default-settings run, independent frame parser + decompressor recover the serialisations. Non-trivial = at least one Pending taken or more than one DATA frame produced.",
+        "cases: message sequences (0..=3 messages over sizes {0,1,3,9,40} + two sequences crossing 8/32 KiB) x codec {raw, prost} x buffer settings {(4,8),(8,16),default} x encoding {identity,gzip,deflate,zstd} x role (identity streams under a send limit of the longest message + 8 bytes, which no message but every batch of two exceeds); environment: the source answers Pending before any item or the end (every pattern: bound 5 >= number of points); oracle: bytes identical to the always-ready default-settings run, independent frame parser + decompressor recover the serialisations. Non-trivial = at least one Pending taken or more than one DATA frame produced.",
         enc_cases.clone(),
         |c: &EncCase| format!("prost={} settings={:?} msgs={:?} enc={} role={:?}", c.prost, c.settings, c.msgs.iter().map(|m| m.len()).collect::<Vec<_>>(), enc_name(c.enc), c.role),
         enc_body,
